@@ -12,6 +12,7 @@ Oracle : greedy reference wrap on the cell list: words = maximal non-whitespace 
 import itertools
 
 from mc import cells as C
+from mc import repeat
 from mc.runner import Acc, Report
 
 LEVEL = "model_checking"
@@ -226,6 +227,32 @@ def shard_many_words(args):
     return acc.export()
 
 
+def shard_scale(args):
+    """Sizes far beyond small (cells.scale_specs: hundreds of words, words of hundreds of characters, hundreds of runs) at narrow,
+    ordinary and very wide limits; as FmtStr and as plain str."""
+    tier, seed, idx, nshards = args
+    acc = Acc(seed=seed, sample_stride=4999)
+    specs = C.scale_specs(tier == "thorough", shapes=("words", "runs7", "words", "one", "unit_runs"))
+    for si in range(idx, len(specs), nshards):
+        spec = specs[si]
+        f = C.build(spec)
+        fc = C.spec_cells(spec)
+        text = "".join(c for c, _ in fc)
+        n = len(fc)
+        snap = C.snapshot(f)
+        shown = {"scale_value": {"characters": n, "runs": len(spec), "first_runs": C.show_spec(spec[:3])}}
+        for columns in sorted({1, 2, 3, 7, 10, 20, 41, 79, 80, 81, 132, 200, 256, 257, 1000, 2500, max(1, n - 1), n, n + 1}):
+            case = dict(shown, columns=columns)
+            acc.case(True, key=("scale", si, columns), sample=case)
+            acc.transitions += 2
+            check(acc, f, fc, columns, case)
+            if columns in (7, 80, 257):
+                check(acc, text, [(c, ()) for c in text], columns, dict(case, **{"as": "str"}))
+        if C.snapshot(f) != snap:
+            acc.failure("C16:operand_changed", shown, "")
+    return acc.export()
+
+
 def shard_special(args):
     """(a) one very long word (thousands of pieces); (b) the list a call returns belongs to the caller: editing it must not change
     what an equal call returns later (function-level caches)."""
@@ -296,10 +323,13 @@ def shard_fresh_formatting(args):
 
 def run(ctx):
     rep = Report()
+    repeat.run_into(ctx, rep, "C16")
     for d in ctx.pmap(shard_fresh_formatting, [(ctx.tier, ctx.seed, i) for i in range(4)]):
         rep.merge(d, "fresh_formatting_order")
     for d in ctx.pmap(shard_many_words, [(ctx.tier, ctx.seed, i) for i in range(8)]):
         rep.merge(d, "many_words")
+    for d in ctx.pmap(shard_scale, [(ctx.tier, ctx.seed, i, 32) for i in range(32)]):
+        rep.merge(d, "scale_sweep")
     for d in ctx.pmap(shard_special, [(ctx.tier, ctx.seed, i) for i in range(2)]):
         rep.merge(d, "huge_word_and_result_ownership")
     ns = 256 if ctx.thorough else 64
